@@ -290,6 +290,8 @@ fn memtable_rollover(kvs: &FlushStore, state: &mut RollState) -> (r: Result<(Mem
 //@ rewrite-re X7 `(?s)kvs\.poison\(Self::start_new_log\(\s*&state\.mem_path,\s*kvs\.options\.log\.clone\(\),\s*\)\)\?` => `kvs.start_new_log(&state.mem_path)?`
 //@ rewrite X23 `kvs.wait_list.link(())` => `kvs.wait_list.link(Ghost(state.seq_no))`
 //@ rewrite X18 `drop(wait_guard);` => `drop_guard(wait_guard);`
+//@ rewrite-re? X4 `std::cmp::max\(` => `max_u64(`
+//@ rewrite-re? X4 `std::cmp::min\(` => `min_u64(`
 //@ pre <<
         old(state).inv(), old(state).seq_no < 0xffff_ffff_ffff_ffff,
 //@ >>
